@@ -145,5 +145,5 @@ MANIFEST = {
             "cofactor clearing is multiplication by constants equal to the RFC's effective cofactors re-derived from x, and that "
             "h2·r is a sextic-twist order with h2 | h_eff — which gives 'lands in the subgroup' for G2. The two group-theory "
             "facts listed under not_decided are assumed.",
-    "note": "Layered on C07/C13 (multiply, is_inf). Oracle: BLS12 parameter polynomials in vstatic/spec/params.py.",
+    "note": "R4 re-states C13 and the ladder schema of the optimized BLS multiply (C07.R3): [r]P and [h_eff]P are what the terms say for every curve point, also of small order. Layered on C07/C13 (multiply, is_inf). Oracle: BLS12 parameter polynomials in vstatic/spec/params.py.",
 }
